@@ -51,7 +51,7 @@ def derive(demo):
     # "cd v2/storage && go test ... ." : the package is given by the directory
     m2 = re.search(r"cd\s+(\S+)\s*&&", head)
     if m2 and pkg in ("", "."):
-        d = re.sub(r"^.*?/wt/", "", m2.group(1)).strip("/")
+        d = re.sub(r"^(?:.*?/wt(?:/|$)|<worktree>/?)", "", m2.group(1)).strip("/")
         parts = d.split("/")
         if parts and parts[0] in ("v2", "cmd"):
             mod, parts = parts[0], parts[1:]
@@ -135,7 +135,15 @@ def main():
     # 4 slots, each slot sequential
     results = []
     def runslot(s):
-        return [one(j) for j in jobs if j[2] == s]
+        out = []
+        for j in jobs:
+            if j[2] != s:
+                continue
+            try:
+                out.append(one(j))
+            except Exception as e:     # one odd demonstration header must not lose the other results
+                out.append((j[0], j[1], {"property": j[0], "variant": j[1], "status": "error: %r" % (e,)}))
+        return out
     with ThreadPoolExecutor(4) as ex:
         for r in ex.map(runslot, range(4)):
             results += r
